@@ -435,9 +435,9 @@ impl Gen {
                     let v = *self.rng.pick(&["iter", "keys", "values", "iter_mut", "values_mut"]);
                     format!("{} iter {} {}", tgt, p, v)
                 } else if x < 90 {
-                    format!("{} drain {} 0", tgt, self.rng.below(8))
+                    if self.rng.chance(1, 3) { format!("{} drain_fold {}", tgt, self.rng.below(8)) } else { format!("{} drain {} 0", tgt, self.rng.below(8)) }
                 } else if x < 94 {
-                    format!("{} into_iter {}", tgt, self.rng.below(8))
+                    if self.rng.chance(1, 3) { format!("{} into_iter_fold {}", tgt, self.rng.below(8)) } else { format!("{} into_iter {}", tgt, self.rng.below(8)) }
                 } else if x < 96 {
                     format!("{} with_capacity {}", tgt, self.rng.below(40))
                 } else if x < 98 {
@@ -665,9 +665,9 @@ impl Gen {
         } else if x < 820 {
             format!("{} extract_if {}", tgt, self.rng.below(12))
         } else if x < 840 {
-            format!("{} drain {} {}", tgt, self.rng.below(12), if self.rng.chance(1, 5) { 1 } else { 0 })
+            if self.rng.chance(1, 3) { format!("{} drain_fold {}", tgt, self.rng.below(12)) } else { format!("{} drain {} {}", tgt, self.rng.below(12), if self.rng.chance(1, 5) { 1 } else { 0 }) }
         } else if x < 850 {
-            format!("{} into_iter {}", tgt, self.rng.below(12))
+            if self.rng.chance(1, 3) { format!("{} into_iter_fold {}", tgt, self.rng.below(12)) } else { format!("{} into_iter {}", tgt, self.rng.below(12)) }
         } else if x < 900 {
             let v = *self.rng.pick(&["iter", "keys", "values"]);
             format!("{} iter {} {}", tgt, self.rng.below(10), v)
